@@ -1318,4 +1318,8 @@ BENIGN = [
     Benign('snake-case-parse-action', EXPR, "suffix.setParseAction(self.suffix_parse_action)", "suffix.set_parse_action(self.suffix_parse_action)"),
     Benign('forward-bound-with-ilshift', EXPR, "expression << sumdiff", "expression <<= sumdiff"),
     Benign('log-statement-in-grammar-builder', EXPR, "        # Close the recursion\n", "        print('building grammar')\n"),
+    Benign('cache-lookup-by-keyerror', EXPR, "        if expression_no_whitespace in self.cache:\n            return self.cache[cache_key]\n",
+           "        try:\n            return self.cache[cache_key]\n        except KeyError:\n            pass\n"),
+    Benign('grammar-signs-by-tuple-assignment', EXPR, "        minus = Literal(\"-\") | emdash\n", "        minus, dash = (Literal(\"-\") | emdash, emdash)\n"),
+    Benign('evaluator-blank-test-inlined', EXPR, "    formula = formula.strip()\n    if formula == \"\":", "    formula = formula.strip()\n    if not formula:"),
 ]
